@@ -336,6 +336,13 @@ class CallMixin:
         deps = self._all_deps(args, kwargs, starkw) | recv.deps
         spec = X.METHODS.get(name)
         if spec is None:
+            fval = self.read_field(recv, name, quiet=True) if recv.aliases() else None
+            if fval is not None and ({"callable", "forgotten"} & fval.tags or fval.locs):
+                # calling a function object held in a field (user supplied binarizer, evaluator, scaler ...)
+                res = Val(deps=deps | fval.deps, tags=["opaque-call"])
+                self.emit("ext", node, name="<value>." + name, recv=recv, fval=fval, args=args, kwargs=kwargs,
+                          starkw=starkw, result=res, spec={"ret": "fresh", "opaque": True})
+                return res
             self.unclassified["." + name] = self.unclassified.get("." + name, 0) + 1
             spec = {"ret": "fresh", "unclassified": True}
         # dict.get(const) on a constant-key dict display (e.g. _Linear.factory.get(regression))
@@ -470,7 +477,7 @@ class CallMixin:
     def _mut_store(self, target: Val, kind, stored: Val, node, refit=False):
         targets = self.store_targets(target, "[*]")
         for oid in target.refs:
-            o = self.obj(oid)
+            o = self.mobj(oid)
             if kind == "reset-all":
                 o.elem = stored
             elif stored is not EMPTY:
